@@ -17,8 +17,17 @@
 #include <cstdio>
 #include <cstdlib>
 #include <cstring>
+#include <chrono>
+#include <condition_variable>
+#include <exception>
+#include <functional>
+#include <future>
 #include <map>
 #include <memory>
+#include <mutex>
+#include <shared_mutex>
+#include <stdexcept>
+#include <thread>
 #include <string>
 #include <unordered_set>
 #include <vector>
@@ -185,6 +194,114 @@ std::string slurp(const char* path)
 
 }  // namespace
 
+// Process-wide one-time initialisations inside libstdc++ / libgcc (unwinder
+// tables, error categories, locale bits ...) go through pthread_once /
+// __cxa_guard_*; if the first use happened inside a simulated run it would add
+// scheduling points to that run only, and a replay in a fresh process would
+// see a different event sequence than run N of a long-lived worker.  Do them
+// all here, outside any run.
+__attribute__((noinline)) static void warm_up_process()
+{
+    try {
+        throw gsim::injected{0, 0};
+    }
+    catch (const gsim::injected&) {
+    }
+    try {
+        throw std::runtime_error("warm-up");
+    }
+    catch (const std::exception&) {
+    }
+    try {
+        std::vector<int> v(1);
+        (void)v.at(3);
+    }
+    catch (const std::out_of_range&) {
+    }
+    {
+        std::promise<int> p;
+        auto f = p.get_future();
+        p.set_value(1);
+        (void)f.get();
+    }
+    {
+        std::future<int> g;
+        {
+            std::promise<int> q;
+            g = q.get_future();
+        }
+        try {
+            (void)g.get();
+        }
+        catch (const std::future_error&) {
+        }
+    }
+    try {
+        std::promise<std::string> r;
+        r.set_value("a");
+        r.set_value("b");
+    }
+    catch (const std::future_error&) {
+    }
+    {
+        std::packaged_task<int(int)> t([](int x) { return x + 1; });
+        auto f = t.get_future();
+        t(1);
+        (void)f.get();
+        std::packaged_task<void()> t2([] { throw gsim::injected{1, 1}; });
+        auto f2 = t2.get_future();
+        t2();
+        try {
+            f2.get();
+        }
+        catch (const gsim::injected&) {
+        }
+    }
+    {
+        std::exception_ptr ep;
+        try {
+            throw gsim::injected{2, 2};
+        }
+        catch (...) {
+            ep = std::current_exception();
+        }
+        try {
+            std::rethrow_exception(ep);
+        }
+        catch (const gsim::injected&) {
+        }
+    }
+    {
+        std::once_flag fl;
+        std::call_once(fl, [] {});
+        std::mutex m;
+        std::condition_variable cv;
+        std::unique_lock<std::mutex> lk(m);
+        cv.wait_for(lk, std::chrono::nanoseconds(1));
+        std::shared_timed_mutex sm;
+        (void)sm.try_lock_shared_for(std::chrono::nanoseconds(1));
+        sm.unlock_shared();
+        std::timed_mutex tm;
+        (void)tm.try_lock_for(std::chrono::nanoseconds(1));
+        tm.unlock();
+        (void)std::chrono::steady_clock::now();
+        (void)std::chrono::system_clock::now();
+        std::this_thread::yield();
+        std::this_thread::sleep_for(std::chrono::nanoseconds(1));
+    }
+    {
+        std::string s = std::to_string(12345) + "x";
+        (void)std::stol("42");
+        std::shared_ptr<int> sp = std::make_shared<int>(1);
+        std::weak_ptr<int> wp = sp;
+        (void)wp.lock();
+        std::function<void()> fn = [sp] {};
+        fn();
+        std::map<std::string, int> mp;
+        mp["k"] = 1;
+    }
+}
+
 int main(int argc, char** argv)
 {
     // identical addresses in every process: easier debugging, and nothing can
@@ -200,6 +317,8 @@ int main(int argc, char** argv)
     const char* replay = nullptr;
     const char* trace = nullptr;
     const char* hashes = nullptr;
+    const char* dump_dir = nullptr;
+    uint64_t dump_every = 1;
     const char* wlname = nullptr;
     uint64_t verif_seed = 1, from = 0, count = 1000, stride = 1, offset = 0;
     long time_ms = 0;
@@ -244,6 +363,10 @@ int main(int argc, char** argv)
             gsim_ctl::set_fail_out(next());
         else if (a == "--hashes")
             hashes = next();
+        else if (a == "--dump-dir")
+            dump_dir = next();
+        else if (a == "--dump-every")
+            dump_every = strtoull(next(), nullptr, 10);
         else if (a == "--samples")
             nsamples = atoi(next());
         else if (a == "--limits") {
@@ -275,6 +398,7 @@ int main(int argc, char** argv)
     const gsim::Workload* w =
         wlname ? gsim_ctl::find_workload(wlname) : gsim_ctl::first_workload();
     gsim_ctl::install_crash_handlers();
+    warm_up_process();
 
     if (replay) {
         std::string text = slurp(replay);
@@ -416,6 +540,15 @@ int main(int argc, char** argv)
             gsim_ctl::run_search(w, mix64(base + idx * 0xD1B54A32D192ED03ull));
         }
         const auto& st = fork_each ? forked_st : gsim_ctl::last_stats();
+        if (dump_dir && !fork_each && idx % dump_every == 0) {
+            char path[600];
+            snprintf(path, sizeof path, "%s/run-%llu.json", dump_dir, (unsigned long long)idx);
+            FILE* df = fopen(path, "w");
+            if (df) {
+                gsim_ctl::dump_run_json(df, "sample", "", -1);
+                fclose(df);
+            }
+        }
         if (print_runs)
             printf("RUN %llu %016llx %llu\n", (unsigned long long)idx,
                    (unsigned long long)st.event_hash, (unsigned long long)st.steps);
